@@ -198,7 +198,8 @@ def gen_pauli_wiring(cls, attrs, module=None):
     fn = find_func(cls, 'construct')
     # a per-qubit body extracted into a private method of the class is inlined again (pycoq N6); annotations dropped (N1).
     # Locals are NOT substituted: the wiring below is read off the named locals.
-    fn = norm_function(fn, module=module, cls=cls, guards=False, accumulate=False, single_use=False)
+    # a number hoisted out of the per-qubit loop (`half = max_duration * 0.5` ... `t=half`) is substituted back (N9).
+    fn = norm_function(fn, module=module, cls=cls, guards=False, accumulate=False, single_use=False, numeric_locals=True)
     out = []
     # 1. max_duration = max([settings.get_operation_duration(instruction.name) for instruction in instructions], default=0)
     assigns = local_assigns(ast.walk(fn), 'max_duration')
